@@ -310,9 +310,12 @@ def n_atoms(n):
 
 
 def n_depth(n):
+    """nesting depth: 0 = a single SIZE atom, 1 = one level of operators, +1 per level of parentheses"""
     if n[0] == 'S':
         return 0
-    return 1 + max(n_depth(x) for x in n[1:])
+    if n[0] == 'p':
+        return 1 + n_depth(n[1])
+    return max(1, max(n_depth(x) for x in n[1:]))
 
 
 def marker_mask(n):
